@@ -94,12 +94,15 @@ TEXT = {
   "technique": "Coq proof (representation invariant through setters and the decoder IR; 256-value sweep) + render correspondence + panic/watchdog oracle",
  },
  "C01": {
-  "level": "Theorems C01_wire_roundtrips (every wire type, every value inside MQTT's limits, any suffix - covers the 65 534/65 535-byte strings and all "
-           "variable-byte-integer length classes without enumeration) and C01_frame (the written bytes are one frame, consumed exactly under any delivery, "
-           "dispatched on the packet's own first byte). The field-for-field statement for whole packets (C01_full) is not yet proved; it is decided by the "
-           "round-trip oracle on the implementation and by model/implementation correspondence on every run.",
+  "level": "Theorem C01_roundtrip (Properties/C01.v) is the whole statement on the model, for all fifteen types and with no bound on sizes or counts: for "
+           "every packet of the domain, WriteTo's bytes are one frame; ReadPacket on any delivery of them followed by anything consumes exactly them, "
+           "returns no error and the same type; every accessor (snapshot: scalars, flags, the nested will, ordered lists with duplicates) returns what was "
+           "set; re-encoding is byte-identical. C01_api derives the domain for every history of applicable constructor/setter calls with arguments inside "
+           "MQTT's limits (invariant by induction over the history, Proofs/DomP.v). Also C01_wire_roundtrips and C01_frame. The model is tied to the source by "
+           "the regenerated encoder/decoder IR (sync lemmas), fingerprints of the hand-modelled functions, correspondence, and the round-trip oracle "
+           "(accessor equality + identical re-encoding on the implementation).",
   "note": NOTE,
-  "technique": "Coq proof (wire-type round trips, frame layer) + correspondence + accessor-equality/re-encode round-trip oracle",
+  "technique": "Coq proof (whole-packet round trip for all 15 types over the translated encoder/decoder IR; API histories by invariant) + correspondence + round-trip oracle",
  },
  "C02": {
   "level": "Theorems C02_framing (for every packet type and value: one frame, minimal remaining length equal to the bytes that follow, accepted by the "
